@@ -349,6 +349,15 @@ class EpisodeMonitor:
                         if lbl != inst and prev.get(lbl) != d:
                             self.fail("C20", f"{op}: resuming the call changed another cache instance {lbl}")
                     before, after = prev.get(inst), dumps.get(inst)
+                    # the store of a resumed call writes under ITS OWN key only (C01: a value computed for arguments A is never
+                    # stored under the key of other arguments B — e.g. because the key was re-read from a buffer another call reused)
+                    if before is not None and after is not None:
+                        for k2, v2 in after[0].items():
+                            if k2 != key and (k2 not in before[0] or before[0][k2][0] != v2[0]):
+                                msg = (f"{op}: resuming the call for key {key[:24]} wrote the entry of ANOTHER key {k2[:24]} "
+                                       f"(value {str(v2[0])[:30]}): later calls with those other arguments are served this call's result")
+                                self.fail("C01", msg)
+                                self.fail("C20", msg)
                     # whatever the resumed call stored is a NEW entry: its lifetime starts at the resumption, not at the
                     # store of another call for the same arguments that completed while this one was suspended
                     if after and key in after[0] and o.get("ret") is not None and after[0][key][0] == o["ret"] and after[0][key][2] >= 1000 \
